@@ -90,6 +90,10 @@ def ops_pieces():
            R('auto &r = down_cast<CSRMatrix &>(result);', 'CSRMatrix &r = result;', n=1, why="auto& and down_cast on the stub class"),
            R('SymEngine::conjugate(', 'field_conjugate(', n=1, why="conjugate of an exact real number is the identity in the field model"),
            R('std::vector<unsigned> p(p_), j(j_);', 'uvec p(p_); uvec j(j_);', n=1, why="two declarators of the stub vector type")]),
+        P(r'void csr_matmat_pass1\(const CSRMatrix &A, const CSRMatrix &B, CSRMatrix &C\)',
+          [R('throw std::overflow_error("nnz of the result is too large");', 'VERIF_THROW(overflow_error);', n=1, why="exception object dropped (DESIGN §8)")]),
+        P(r'void csr_matmat_pass2\(const CSRMatrix &A, const CSRMatrix &B, CSRMatrix &C\)',
+          [R('std::vector<int>', 'ivec', n=1, why="std::vector<int> -> fixed-capacity stub")]),
         P(r'void csr_diagonal\(const CSRMatrix &A, DenseMatrix &D\)'),
         P(r'void csr_scale_rows\(CSRMatrix &A, const DenseMatrix &X\)'),
         P(r'void csr_scale_columns\(CSRMatrix &A, const DenseMatrix &X\)'),
@@ -101,7 +105,7 @@ def ops_pieces():
 def ops_unit(tier):
     shapes = [(2, 3, 6)] if tier == 'quick' else [(2, 3, 6), (3, 3, 6), (3, 2, 6)]
     ents = []
-    hs = ['h_conjugate', 'h_get', 'h_set', 'h_set_twice', 'h_sum_duplicates', 'h_from_coo', 'h_transpose', 'h_diagonal', 'h_scale', 'h_binop']
+    hs = (['h_matmat'] if tier == 'thorough' else []) + ['h_conjugate', 'h_get', 'h_set', 'h_set_twice', 'h_sum_duplicates', 'h_from_coo', 'h_transpose', 'h_diagonal', 'h_scale', 'h_binop']
     for nr, nc, nnz in shapes:
         for h in hs:
             cap = 9
@@ -110,13 +114,16 @@ def ops_unit(tier):
                 r, c, z = 2, 2, 4
             if tier == 'quick' and h == 'h_from_coo':
                 z = 4
-            ents.append(Entry(h, defines={'FP': 3, 'NR': r, 'NC': c, 'NNZ': z, 'CAP': cap}, route='B', timeout=1500 if tier == 'quick' else 3600, mem_gb=8,
+            extra = {}
+            if h == 'h_matmat':          # A is 2x2, B is 2x3 (more columns than A): small on purpose, the two nested product loops are expensive
+                r, c, z, extra = 2, 2, 4, {'NK2': 3}
+            ents.append(Entry(h, defines=dict({'FP': 3, 'NR': r, 'NC': c, 'NNZ': z, 'CAP': cap}, **extra), route='B', timeout=1500 if tier == 'quick' else 3600, mem_gb=8,
                               unwind=cap + 2, bounds="%dx%d matrices over GF(3), at most %d stored entries, every sparsity pattern and value; unwinding %d with unwinding assertions" % (r, c, z, cap + 2)))
     return Unit('csr_operations', 'C25', 'contracts/C25/ops.cpp', {'csr.inc': ops_pieces()}, ents, route='B',
                 trusted=["field prelude prelude/field.h (entries are elements of GF(3): exact add/sub/mul and is_zero)",
                          "contracts/C25/csr_prelude.h: std::vector<unsigned> / vec_basic stubs with position iterators, std::swap, std::partial_sum, DenseMatrix get/set",
                          "csr_sort_indices is NOT under contract (lambda passed to std::sort): replaced by its assumed contract, realised by an insertion sort"],
-                assumptions=["symbolic (non-numeric) entries where is_zero is indeterminate, jacobian, csr_matmat_pass1/2 (unused in the library) and CSRMatrix::eq are not covered",
+                assumptions=["symbolic (non-numeric) entries where is_zero is indeterminate, jacobian and CSRMatrix::eq are not covered",
                              "sizes beyond the stated bound"])
 
 
